@@ -4,6 +4,7 @@ import (
 	"encoding/json"
 	"fmt"
 	"go/ast"
+	"go/parser"
 	"go/token"
 	"go/types"
 	"os"
@@ -77,9 +78,6 @@ func (p *Program) newHelperOverlay(current map[string][]byte, protectCandidates 
 		}
 		newObj[fn.Object()] = true
 	}
-	if len(newObj) == 0 {
-		return nil, nil
-	}
 	// declarations of the new helpers
 	type declInfo struct {
 		decl *ast.FuncDecl
@@ -126,7 +124,9 @@ func (p *Program) newHelperOverlay(current map[string][]byte, protectCandidates 
 					return di.decl, di.pkg, di.file, ok
 				}, func(e fileEdit, note string) {
 					edits[fname] = append(edits[fname], e)
-					notes = append(notes, note)
+					if note != "" {
+						notes = append(notes, note)
+					}
 				}, current)
 			}
 		}
@@ -250,8 +250,36 @@ func (p *Program) collectInlineSites(pk *packages.Package, file *ast.File, calle
 			if sel := pk.TypesInfo.Selections[fun]; sel != nil && sel.Kind() == types.MethodVal {
 				return sel.Obj(), fun.X
 			}
+			if _, isPkg := pk.TypesInfo.Uses[identOf(fun.X)].(*types.PkgName); isPkg {
+				return pk.TypesInfo.Uses[fun.Sel], nil // package-qualified function
+			}
 		}
 		return nil, nil
+	}
+	// beyond the new helpers known to the caller of this function: (a) the standard library's generic
+	// search helpers, presented as synthetic loop helpers when their use is new in this function
+	// ("modernised" loops), and (b) calls of the local closure variables such a synthetic helper binds
+	// its predicate to
+	baseLookup := lookup
+	lookup = func(obj types.Object) (*ast.FuncDecl, *packages.Package, *ast.File, bool) {
+		if fd, cpk, cf, ok := baseLookup(obj); ok {
+			return fd, cpk, cf, ok
+		}
+		switch o := obj.(type) {
+		case *types.Func:
+			if o.Pkg() != nil && o.Pkg().Path() == "slices" && p.stdUseIsNew(pk, caller, "slices."+o.Name()) {
+				if fd, cf := p.syntheticStdHelper(o.Name()); fd != nil {
+					return fd, pk, cf, true
+				}
+			}
+		case *types.Var:
+			if strings.HasPrefix(o.Name(), "pkoStd") {
+				if fd := closureVarDecl(pk, caller, o); fd != nil {
+					return fd, pk, file, true
+				}
+			}
+		}
+		return nil, nil, nil, false
 	}
 
 	// handle one statement that sits in a statement list
@@ -475,7 +503,9 @@ func (p *Program) collectInlineSites(pk *packages.Package, file *ast.File, calle
 		}
 		calleeFileName := p.Fset.PositionFor(cfile.Pos(), false).Filename
 		csrc := src
-		if cfile != file {
+		if syn, isSyn := p.synthSrc[calleeFileName]; isSyn {
+			csrc = syn
+		} else if cfile != file {
 			csrc = current[calleeFileName]
 			if csrc == nil {
 				b, err := os.ReadFile(calleeFileName)
@@ -556,7 +586,12 @@ func (p *Program) collectInlineSites(pk *packages.Package, file *ast.File, calle
 					}
 					tmp := fmt.Sprintf("pkoInl%dA%d", n, len(binds))
 					tt := ctext(f.Type.Pos(), f.Type.End())
-					fmt.Fprintf(&sb, "var %s %s = %s\n_ = %s\n", tmp, tt, text(call.Args[ai].Pos(), call.Args[ai].End()), tmp)
+					if tt == "pkoAuto" {
+						// synthetic generic helper: the argument keeps its own type
+						fmt.Fprintf(&sb, "%s := %s\n_ = %s\n", tmp, text(call.Args[ai].Pos(), call.Args[ai].End()), tmp)
+					} else {
+						fmt.Fprintf(&sb, "var %s %s = %s\n_ = %s\n", tmp, tt, text(call.Args[ai].Pos(), call.Args[ai].End()), tmp)
+					}
 					binds = append(binds, bind{names[k], tt, tmp})
 					ai++
 				}
@@ -754,6 +789,14 @@ func (p *Program) collectInlineSites(pk *packages.Package, file *ast.File, calle
 		fmt.Fprintf(&sb, "/*line %s:%d:%d*/", after.Filename, after.Line, after.Column)
 		emit(fileEdit{off(replStart), off(replEnd), sb.String()},
 			fmt.Sprintf("%s inlined into %s at %s", fd.Name.Name, caller.Name.Name, p.Pos(st.Pos())))
+		if cfile == p.synthFile && cfile != nil {
+			// the package may lose its last use in this file: keep the import alive
+			if sel, ok := call.Fun.(*ast.SelectorExpr); ok {
+				if id := identOf(sel.X); id != nil {
+					emit(fileEdit{len(src), len(src), "\nvar _ = " + id.Name + ".Contains[[]int, int]\n"}, "")
+				}
+			}
+		}
 	}
 	handleList = func(list []ast.Stmt) {
 		for i, st := range list {
@@ -1262,4 +1305,155 @@ func (p *Program) foldLeadingNilTest(pk *packages.Package, st ast.Stmt, call *as
 		sb.WriteString("\n" + lineDir(rest[1].Pos()) + text(rest[1].Pos(), dupEnd))
 	}
 	return sb.String(), true
+}
+
+func identOf(e ast.Expr) *ast.Ident {
+	id, _ := e.(*ast.Ident)
+	return id
+}
+
+// Synthetic loop helpers for the standard library's generic search functions. A loop that was
+// replaced by slices.ContainsFunc/IndexFunc/Contains/Index ("modernised") is turned back into a loop:
+// the call is inlined like a new helper with the bodies below; the predicate argument is bound to a
+// local whose application is inlined in the next round. Parameters of the marker type pkoAuto are
+// bound with := (a generic function does not convert its arguments).
+const syntheticStdSrc = `package pkostd
+
+func pkoStdContainsFunc(pkoStdS pkoAuto, pkoStdF pkoAuto) bool {
+	for pkoStdI := range pkoStdS {
+		if pkoStdF(pkoStdS[pkoStdI]) {
+			return true
+		}
+	}
+	return false
+}
+
+func pkoStdIndexFunc(pkoStdS pkoAuto, pkoStdF pkoAuto) int {
+	for pkoStdI := range pkoStdS {
+		if pkoStdF(pkoStdS[pkoStdI]) {
+			return pkoStdI
+		}
+	}
+	return -1
+}
+
+func pkoStdContains(pkoStdS pkoAuto, pkoStdV pkoAuto) bool {
+	for pkoStdI := range pkoStdS {
+		if pkoStdS[pkoStdI] == pkoStdV {
+			return true
+		}
+	}
+	return false
+}
+
+func pkoStdIndex(pkoStdS pkoAuto, pkoStdV pkoAuto) int {
+	for pkoStdI := range pkoStdS {
+		if pkoStdS[pkoStdI] == pkoStdV {
+			return pkoStdI
+		}
+	}
+	return -1
+}
+`
+
+const syntheticStdFile = "/pkocheck-synthetic/pko_std.go"
+
+func (p *Program) syntheticStdHelper(name string) (*ast.FuncDecl, *ast.File) {
+	// Experiment, off by default: turning "modernised" loops back into loops type-checks and works
+	// mechanically, but the rules had meanwhile learnt the closure forms themselves (and
+	// patterns.go canonicalCall the predicate spellings); the canonical loop this produces is a
+	// third shape they would have to learn. Kept for the record (DESIGN.md section 8.5).
+	if os.Getenv("PKOCHECK_DEMODERNISE") == "" {
+		return nil, nil
+	}
+	if p.synthFile == nil {
+		f, err := parser.ParseFile(p.Fset, syntheticStdFile, syntheticStdSrc, 0)
+		if err != nil {
+			return nil, nil
+		}
+		p.synthFile = f
+		if p.synthSrc == nil {
+			p.synthSrc = map[string][]byte{}
+		}
+		p.synthSrc[syntheticStdFile] = []byte(syntheticStdSrc)
+	}
+	for _, d := range p.synthFile.Decls {
+		if fd, ok := d.(*ast.FuncDecl); ok && fd.Name.Name == "pkoStd"+name {
+			return fd, p.synthFile
+		}
+	}
+	return nil, nil
+}
+
+// stdUseIsNew: the function containing the call did not call this standard-library function in the
+// pinned tree (so the use replaced hand-written code); unrecorded callers count as new.
+func (p *Program) stdUseIsNew(pk *packages.Package, caller *ast.FuncDecl, calleeID string) bool {
+	obj, _ := pk.TypesInfo.Defs[caller.Name].(*types.Func)
+	if obj == nil {
+		return false
+	}
+	rec, ok := recordedAnchors()[obj.FullName()]
+	if !ok {
+		return true
+	}
+	for _, c := range rec.Callees {
+		if c == calleeID {
+			return false
+		}
+	}
+	return true
+}
+
+// closureVarDecl presents the func literal bound (directly or through single-assignment aliases) to
+// the local variable v as a helper declaration, when every free local variable of the literal still
+// denotes the same object at v's call sites (checked by the caller through noCapture for package-level
+// names; here: v and its aliases are assigned exactly once).
+func closureVarDecl(pk *packages.Package, caller *ast.FuncDecl, v *types.Var) *ast.FuncDecl {
+	defs := map[types.Object]ast.Expr{}
+	assigns := map[types.Object]int{}
+	ast.Inspect(caller.Body, func(n ast.Node) bool {
+		as, ok := n.(*ast.AssignStmt)
+		if !ok || len(as.Lhs) != len(as.Rhs) {
+			return true
+		}
+		for i, l := range as.Lhs {
+			id, ok := l.(*ast.Ident)
+			if !ok {
+				continue
+			}
+			obj := pk.TypesInfo.Defs[id]
+			if obj == nil {
+				obj = pk.TypesInfo.Uses[id]
+			}
+			if obj == nil {
+				continue
+			}
+			assigns[obj]++
+			defs[obj] = as.Rhs[i]
+		}
+		return true
+	})
+	var cur types.Object = v
+	for hop := 0; hop < 4; hop++ {
+		if assigns[cur] != 1 {
+			return nil
+		}
+		switch rhs := ast.Unparen(defs[cur]).(type) {
+		case *ast.FuncLit:
+			// free locals of the literal must not be reassigned-and-shadowed: require that the literal
+			// uses no local that is declared after it (impossible) — and that none of its free locals is
+			// shadowed at the use; the synthetic helpers introduce only pkoStd*/pkoInl* names, which the
+			// literal cannot mention
+			return &ast.FuncDecl{Name: ast.NewIdent(v.Name()), Type: rhs.Type, Body: rhs.Body}
+		case *ast.Ident:
+			next := pk.TypesInfo.Uses[rhs]
+			if next == nil {
+				return nil
+			}
+			cur = next
+		default:
+			return nil
+		}
+	}
+	return nil
 }
